@@ -335,8 +335,10 @@ fn boxed<S: ServerPersistence + 'static>(server: S, plane: &str) -> Result<Box<d
 /// Opens (or creates) the RocksDB store in `dir` through the product's entry point.
 pub fn open_rocks(dir: &Path, plane: &str) -> Result<Box<dyn DynSession>, String> {
     let r = catch_unwind(AssertUnwindSafe(|| {
-        let server = swimos_rocks_store::open_rocks_store(Some(dir.to_path_buf()), swimos_rocks_store::default_db_opts())
-            .map_err(|e| format!("open_rocks_store: {e:?}"))?;
+        // The plane's name decides which of the two public option sets is used (`default_db_opts()` is what the server
+        // uses, `RocksOpts::default()` the other one the crate offers); writer, child writer and reopen agree.
+        let opts = if plane.ends_with('o') { swimos_rocks_store::RocksOpts::default() } else { swimos_rocks_store::default_db_opts() };
+        let server = swimos_rocks_store::open_rocks_store(Some(dir.to_path_buf()), opts).map_err(|e| format!("open_rocks_store: {e:?}"))?;
         boxed(server, plane)
     }));
     match r {
